@@ -848,7 +848,8 @@ def case_term(h: dict, rec: dict) -> str:
 def canon(o: dict) -> Any:
     """What must not depend on the history: everything except WHICH admissible framework ran."""
     if "items" in o:
-        return ("ans", tuple(None if it is None else (it["cid"], tuple(it["gf"]), tuple(it["ff"])) for it in o["items"]),
+        own = lambda xs: tuple(x for x in xs if x < 1000)     # frameworks of OTHER histories still alive belong to the process, not to the history
+        return ("ans", tuple(None if it is None else (it["cid"], own(it["gf"]), own(it["ff"])) for it in o["items"]),
                 tuple(map(tuple, o["ran"])))
     if "err" in o:
         return ("err", o["err"], tuple(o["names"]))
@@ -906,7 +907,7 @@ def run(rep: Any, tier: str, seed: int) -> bool:
     from lib import vlib
     big = tier == "thorough"
     rng = random.Random(seed * 104729 + 1010)
-    n_hist = 1500 if big else 110
+    n_hist = 1500 if big else 90
     n_fresh = 48 if big else 8
     hists = [gen_history(rng, hid) for hid in range(n_hist)]
     by_id = {h["hid"]: h for h in hists}
@@ -914,9 +915,11 @@ def run(rep: Any, tier: str, seed: int) -> bool:
 
     # ---- variant 0: the full history in this process (earlier universes and histories have run here before)
     recs: List[Tuple[dict, dict, str]] = []
-    for h in hists:
+    for n_done, h in enumerate(hists):
         for r in run_history(h, 0, seed):
             recs.append((h, r, "main"))
+        if n_done % 50 == 49:
+            gc.freeze()        # records hold no classes: keep them out of the per-history gc.collect()
     # ---- variant 1: all definitions first, then only the last request; many histories per worker process
     dfs = [defs_first(h) for h in hists]
     chunks = [dfs[i::4] for i in range(4)]
@@ -1056,9 +1059,22 @@ def run(rep: Any, tier: str, seed: int) -> bool:
     return found
 
 
+def warm_up() -> None:
+    """The check's main process has planned many requests before a history starts; a replay starts in a new process.
+    One ordinary request first, so that the history meets a process in which planning has already happened."""
+    from mloda.user import mloda, Feature, PluginCollector
+    from mloda.provider import FeatureGroup, DataCreator
+    installed_classes()
+    g = type("W10warmup", (FeatureGroup,), {"input_data": classmethod(lambda cls: DataCreator({"w10warm"})),
+                                            "calculate_feature": classmethod(lambda cls, d, f: {"w10warm": [1]})})
+    mloda.run_all([Feature("w10warm")], plugin_collector=PluginCollector.enabled_feature_groups({g}))
+
+
 def replay(r: dict) -> None:
     h = r["history"]
     print("history:", json.dumps(h["ops"], indent=None))
+    if r.get("how", "main") == "main":
+        warm_up()
     if r.get("kind") == "hist":
         recs = run_history(h, 7, 0)
         rec = next(x for x in recs if x["k"] == r["k"])
